@@ -28,9 +28,12 @@ PROPS = ("C01",)
 
 
 @st.composite
-def cases(draw, op="read", invalid=False, many=False, size_bias=None, packing=False):
-    """packing: many requests for small tags with long names (the request, not the reply, fills the packet)"""
-    pd = draw(G.projects(size_bias=size_bias)) if not packing else draw(G.projects(size_bias=["scalar"], max_tags=6, long_names=True))
+def cases(draw, op="read", invalid=False, many=False, size_bias=None, packing=False, fragfail=False):
+    """packing: many requests for small tags with long names (the request, not the reply, fills the packet);
+    fragfail: few requests for large tags and one service - usually a fragment of a transfer under way - refused by the target"""
+    if fragfail:
+        size_bias, many = ["window", "huge", "huge", "medium"], False
+    pd = draw(G.projects(size_bias=size_bias, **({"max_tags": 4} if fragfail else {}))) if not packing else draw(G.projects(size_bias=["scalar"], max_tags=6, long_names=True))
     p = Project(pd)
     seeds = draw(G.memory_seeds(pd))
     cfg = draw(G.target_cfgs())
@@ -46,12 +49,15 @@ def cases(draw, op="read", invalid=False, many=False, size_bias=None, packing=Fa
         out = []
         forced = []
         for r in reqs:
-            if draw(st.integers(0, 3)) == 0:
+            if not fragfail and draw(st.integers(0, 3)) == 0:
                 bad = draw(Q.invalidate(p, r, op))
                 out.append(bad if bad is not None else r)
             else:
                 out.append(r)
-        if draw(st.integers(0, 5)) == 0:
+        if fragfail:
+            status = draw(st.sampled_from([0x02, 0x04, 0x05, 0x10, 0x20, 0xFF]))
+            forced.append({"when": {"nth": draw(st.integers(0, 9))}, "status": status, "ext": []})
+        elif draw(st.integers(0, 5)) == 0:
             # the controller refuses the n-th tag service it receives (may be one fragment of a fragmented transfer)
             status = draw(st.sampled_from([0x02, 0x04, 0x05, 0x10, 0x20, 0xFF]))
             forced.append({"when": {"nth": draw(st.one_of(st.integers(0, 4), st.integers(0, 16)))}, "status": status, "ext": []})
@@ -71,6 +77,16 @@ def cases(draw, op="read", invalid=False, many=False, size_bias=None, packing=Fa
             out = [dict(r, invalid="forced") if (r["tag"] == t["name"] and not r.get("invalid")) else r for r in out]
         case["forced"] = forced
         reqs = out
+    if fragfail:
+        # put whole-array transfers of the large arrays in front: these are the ones that go out in fragments
+        from ..project import ATOMIC
+        arrs = [t for t in pd["tags"] if t["dims"] and t["type"] in ATOMIC and t["type"] != "DWORD" and p.tag_size(t) > 480]
+        for t in (draw(st.permutations(arrs))[:draw(st.integers(1, 2))] if arrs else []):
+            r = {"scope": t.get("scope"), "tag": t["name"], "idx": None, "path": [], "bit": None, "count": p.n_elements(t), "invalid": None}
+            if op == "write":
+                v0, v1 = draw(Q.value_for(p, t["type"], allow_long=False)), draw(Q.value_for(p, t["type"], allow_long=False))
+                r["value"] = [v0 if k % 3 else v1 for k in range(r["count"])]
+            reqs.insert(0, r)
     if op == "write":
         reqs = S.dedupe_overlaps(p, reqs)
     case["reqs"] = reqs
